@@ -11,6 +11,24 @@ claims = {
    'Trusted: go/types, go/ssa, the px engine defer/panic/recover model, database/sql Begin/Commit/Rollback semantics. Not decided: what the driver does; runtime panics inside go-zero straight-line code.',
    'DESIGN.md 3.C14'),
 }
+claims.update({
+ 'C01': ('other', 'path-sensitive typestate over go/ssa (exact accounting on all entry points and exits incl. panic), decision tables, gate-shape facts',
+   'Structural necessary conditions decided on every CFG path: reject => markDrop x1, request x0, fallback x1 iff present; admit => request x1, exactly one success/failure mark on every exit incl. panic (panic = failure, re-raised), error returned unchanged; ErrServiceUnavailable only past drop-ratio gate, forced-pass test and random test; throttled admissions refresh lastPass, rejections never do; 10 entry points, 8 package helpers, wrappers and in-tree users forward/resolve exactly once; constants of the statement by value.',
+   'Not decided: the numeric admission law over 10 s histories (its window structure is under C16), the probabilistic clause, interleavings. Trusted: go/types, go/ssa, px engine model; panics originate at user callbacks.',
+   'DESIGN.md 3.C01'),
+ 'C02': ('other', 'path-sensitive typestate over go/ssa + who-may-touch over SSA references + constant relations',
+   'On every path: ErrServiceOverloaded only when shouldDrop() was true (then nothing counted in flight); shouldDrop <=> highThru and (systemOverloaded or stillHot); highThru = two strict comparisons against maxFlight()*overloadFactor() with factor >= 0.1; +1 in flight per admission, -1 exactly once per promise resolution; flying written only by addFlying; overloadTime set only by systemOverloaded; stillHot only inside the 1 s cool-off; disabled => nop shedder; REST/zRPC users resolve the promise exactly once on every exit incl. panic.',
+   'Not decided: capacity estimate as a function of history, CPU traces, interleavings.',
+   'DESIGN.md 3.C02'),
+ 'C05': ('other', 'semaphore inventories (who-may-touch + operation shapes) and acquire/release pairing on all paths incl. panic exits; lock-guard on paths',
+   'Limit permit channel = make(chan, n) touched only by blocking send / non-blocking send / non-blocking receive; TimeoutLimit grants only after a successful TryBorrow; Pool fields only under its lock, created++ only below limit, created-- one-to-one with destroy, handed-out node unlinked first; TaskRunner / mr / fx workers take slot and wait-group before the goroutine starts and release each exactly once on every exit incl. panic; rescue.Recover runs cleanups before recover(); MaxConnsHandler returns the permit iff it borrowed one. The cap then follows from buffered-channel semantics.',
+   'Not decided: fairness, timing, Cond wake-up races. Trusted: Go channel semantics.',
+   'DESIGN.md 3.C05'),
+ 'C07': ('other', 'lock-guard + event-ordering rules on all paths incl. panic exits; who-may-touch',
+   'Call maps only under their mutex, no user function under the group lock, no self-deadlock; completion deletes the key before wg.Done() on every exit incl. panic; creator registers before unlocking, waiters unlock before waiting; fn exactly once per makeCall with results stored only in the call object; Do/DoEx return that object\'s val/err after completion and report fresh exactly for the creator; ResourceManager creates only inside the single flight after a miss and stores only on success.',
+   'Not decided: the interval-overlap statement over real interleavings, liveness.',
+   'DESIGN.md 3.C07'),
+})
 not_built_reason = 'static rules designed (DESIGN.md section 3) but not built yet in this revision'
 
 checks, na = [], []
